@@ -6,7 +6,7 @@
    interleaving of create (serialised or overlapped) / control / destroy / cleanup / kill requests
    and task deaths, any oracle values (launch outcomes, refusals, failing stage of a creation), executor / agent failures
    (OFail: the affected tasks keep their parent role but are not locked any more). *)
-From Verif Require Import Gen_CleanupAtomic Gen_ProxyMiss Common Ownership Teardown OwnSpec OwnInv_proofs OwnThm_proofs CacheProxy CacheProxy_proofs.
+From Verif Require Import Gen_CleanupAtomic Gen_DoKill Gen_ProxyMiss Common Ownership Teardown OwnSpec OwnInv_proofs OwnThm_proofs CacheProxy CacheProxy_proofs.
 Open Scope N_scope.
 
 (* --- "control, release and kill operations issued for one environment never affect tasks owned by
@@ -128,6 +128,18 @@ Theorem C04_detector_conflict : forall s e c s' u d,
   (forall k, In k (o_kills u) -> forall t, In t (s_roster s) -> t_id t = k -> is_locked t = false).
 Proof. exact detector_conflict. Qed.
 Print Assumptions C04_detector_conflict.
+
+(* --- a kill request or a cleanup keeps every locked task in the roster exactly as it is.  In the source the
+       request is spread over the (slow) KILL calls to the master while other requests write to the roster;
+       from its first KILL call on the kill routine never stores a whole roster it read before (first
+       conjunct, read off the source on every run, gen/Gen_DoKill.v; seeded change C04-7 - replayed on the
+       implementation as corpus cases create-behind-held-kill / two-creations-behind-held-kill). *)
+Theorem C04_kill_keeps_the_roster_of_others :
+  dokill_writes_fresh = true /\
+  (forall ids r t, In t r -> is_locked t = true -> In t (fst (kill_tasks ids r))) /\
+  (forall r t, In t r -> is_locked t = true -> In t (fst (cleanup r))).
+Proof. exact kill_keeps_the_roster_of_others. Qed.
+Print Assumptions C04_kill_keeps_the_roster_of_others.
 
 (* --- the detectors of an environment are what the configuration glue answers for its hosts: the cache
        proxy between the core and the inventory (apricot/cacheproxy, on by default) gives the answer of the
